@@ -45,9 +45,12 @@ impl RRTPlanner {
     ) -> Result<Vec<Vec<f64>>, String> {
         //return Ok(vec![Vec::from(start.clone()), Vec::from(goal.clone())]);
 
+        // Joint limits are as hard as obstacles: a node between a tree and a goal whose angles
+        // are given a full turn away must not cut through the forbidden range.
+        let limits = kinematics.constraints();
         let collision_free = |joint_angles: &[f64]| -> bool {
             let joints = &<Joints>::try_from(joint_angles).expect("Cannot convert vector to array");
-            !kinematics.collides(joints)
+            limits.as_ref().map_or(true, |c| c.compliant(joints)) && !kinematics.collides(joints)
         };
 
         // Constraint compliant random joint configuration generator.
